@@ -1,0 +1,95 @@
+//go:build verif
+
+// Verification hook (build tag "verif" only): exports the endpointManager constructor and its main
+// loop entry points for the /verif runtime monitors (property C44).  Additive; nothing here is
+// compiled into a normal build.
+
+package intdataplane
+
+import (
+	"os"
+
+	apiv3 "github.com/projectcalico/api/pkg/apis/projectcalico/v3"
+
+	"github.com/projectcalico/calico/felix/dataplane/common"
+	"github.com/projectcalico/calico/felix/linkaddrs"
+	"github.com/projectcalico/calico/felix/nftables"
+	"github.com/projectcalico/calico/felix/proto"
+	"github.com/projectcalico/calico/felix/routetable"
+	"github.com/projectcalico/calico/felix/rules"
+)
+
+// VerifEndpointManagerConfig is the exported subset of endpointManagerConfig plus the shims.
+type VerifEndpointManagerConfig struct {
+	IPVersion              uint8
+	WlInterfacePrefixes    []string
+	NFT                    bool
+	KubeIPVSSupportEnabled bool
+	FloatingIPsEnabled     bool
+	NormalRoutePriority    int
+	ElevatedRoutePriority  int
+	DefaultRPFilter        string
+
+	RawTable, MangleTable, FilterTable Table
+	RuleRenderer                       rules.RuleRenderer
+	RouteTable                         routetable.Interface
+	EPMarkMapper                       rules.EndpointMarkMapper
+	OnStatusUpdate                     EndpointStatusUpdateCallback
+	WriteProcSys                       func(path, value string) error
+	OsStat                             func(path string) (os.FileInfo, error)
+	FilterMaps                         nftables.MapsDataplane // may be nil (iptables mode)
+	LinkAddrsMgr                       linkaddrs.Interface
+}
+
+type verifNoopHEPListener struct{}
+
+func (verifNoopHEPListener) OnHEPUpdate(hostIfaceToEpMap map[string]*proto.HostEndpoint) {}
+
+// VerifEndpointManager wraps the real endpointManager.
+type VerifEndpointManager struct {
+	m *endpointManager
+}
+
+// VerifNewEndpointManager builds the real endpointManager through newEndpointManagerWithShims (the
+// constructor the unit tests use).
+func VerifNewEndpointManager(c VerifEndpointManagerConfig) *VerifEndpointManager {
+	m := newEndpointManagerWithShims(
+		&endpointManagerConfig{
+			kubeIPVSSupportEnabled: c.KubeIPVSSupportEnabled,
+			wlInterfacePrefixes:    c.WlInterfacePrefixes,
+			bpfEnabled:             false,
+			bpfAttachType:          apiv3.BPFAttachOptionTCX,
+			nft:                    c.NFT,
+			floatingIPsEnabled:     c.FloatingIPsEnabled,
+			normalRoutePriority:    c.NormalRoutePriority,
+			elevatedRoutePriority:  c.ElevatedRoutePriority,
+		},
+		c.RawTable,
+		c.MangleTable,
+		c.FilterTable,
+		c.RuleRenderer,
+		c.RouteTable,
+		c.IPVersion,
+		c.EPMarkMapper,
+		c.OnStatusUpdate,
+		c.WriteProcSys,
+		c.OsStat,
+		c.DefaultRPFilter,
+		c.FilterMaps,
+		nil, // flowtableHandler
+		verifNoopHEPListener{},
+		common.NewCallbacks(),
+		c.LinkAddrsMgr,
+		nil, // arpTable
+		nil, // arpMaps
+	)
+	return &VerifEndpointManager{m: m}
+}
+
+// OnUpdate delivers a dataplane message (proto.WorkloadEndpointUpdate/Remove, the value returned by
+// NewIfaceStateUpdate, ...), as the internal dataplane's main loop does.
+func (v *VerifEndpointManager) OnUpdate(msg any) { v.m.OnUpdate(msg) }
+
+// ResolveUpdateBatch and CompleteDeferredWork are the two per-batch phases of the main loop.
+func (v *VerifEndpointManager) ResolveUpdateBatch() error   { return v.m.ResolveUpdateBatch() }
+func (v *VerifEndpointManager) CompleteDeferredWork() error { return v.m.CompleteDeferredWork() }
